@@ -24,6 +24,7 @@ func init() {
 	register(&RuleSet{
 		ID: "C19",
 		Explanation: "R1 co-update (loop-header φ comparison in the path evaluator — the function of package parsepath that ranges over a protopath.Path and moves a protoreflect.Value cursor): on every path round the loop, if the value cursor changes then the descriptor cursor changes too (a step may retarget the descriptor without moving the value, never the reverse). " +
+			"R2 descriptor transfer (the part of the planned R2 that is decidable from the evaluator alone): a value cursor taken out of a protoreflect.Map comes with a descriptor cursor taken from FieldDescriptor.MapValue(); one taken out of a List does not. " +
 			"R3 exhaustiveness: the evaluator's step-kind switch covers every protopath.StepKind constant; the parser's token switch covers every token-kind constant of the package except those compared elsewhere (end of input) and has an error default; ParsePath returns a path only on a path dominated by the end-of-input test and a true state predicate. " +
 			"R5 raw renderings: InspectPayload / InspectSignature hand the field bytes (same access path as the endorsement field) to WriteBytesForm, and WriteBytesForm's raw arm writes its parameter itself. " +
 			"R5b the Form field of the inspection options is never written outside construction (the byte form is an input of each rendering, not state carried from one writer to the next). " +
@@ -111,6 +112,7 @@ func runC19(c *Ctx) {
 		}
 		// enumerate back-edge operand pairs
 		bad := map[string]token.Pos{}
+		badTransfer := map[string]token.Pos{}
 		leaves := 0
 		seen := map[[2]ssa.Value]bool{}
 		var pairs func(cv, dv ssa.Value, depth int)
@@ -157,6 +159,13 @@ func runC19(c *Ctx) {
 				if cv != hc && dv == hd {
 					bad[flow.Describe(cv)] = cv.Pos()
 				}
+				// R2 (transfer): a value reached through a map lookup is described by the map's value descriptor,
+				// a list element by the field's message descriptor
+				if cv != hc && dv != hd {
+					if msg := transferMismatch(cv, dv); msg != "" {
+						badTransfer[msg] = cv.Pos()
+					}
+				}
 			}
 		}
 		for i, pred := range hc.Block().Preds {
@@ -169,6 +178,12 @@ func runC19(c *Ctx) {
 		c.S.Count("cursor_update_pairs", leaves)
 		if len(bad) == 0 {
 			c.S.OK("R1", name+":co-update", c.pos(hc.Pos()), fmt.Sprintf("%d (value, descriptor) update pairs round the loop; the descriptor moves whenever the value does", leaves), true)
+		}
+		if len(badTransfer) == 0 {
+			c.S.OK("R2", name+":descriptor transfer", c.pos(hc.Pos()), "map values are described by MapValue(), list elements by the field's message", true)
+		}
+		for k, p := range badTransfer {
+			c.S.Bad("R2", name+":descriptor transfer:"+stepArmName(c, p, ev), c.pos(p), k)
 		}
 		var keys []string
 		for k := range bad {
@@ -908,6 +923,10 @@ func (c *Ctx) coUpdateFields(ev *ssa.Function, name string) (bool, int) {
 				}
 				if d.s.Block() == v.s.Block() || d.s.Block().Dominates(v.s.Block()) {
 					found = true
+					if msg := transferMismatch(v.s.Val, d.s.Val); msg != "" {
+						okAll = false
+						c.S.Bad("R2", name+":descriptor transfer:"+load.FuncName(g), c.pos(v.s.Pos()), msg)
+					}
 				}
 			}
 			if !found {
@@ -917,4 +936,73 @@ func (c *Ctx) coUpdateFields(ev *ssa.Function, name string) (bool, int) {
 		}
 	}
 	return okAll, n
+}
+
+// transferMismatch: cv is the new value cursor, dv the new descriptor cursor of one evaluator step. If the value
+// came out of a protoreflect.Map lookup the descriptor must come from FieldDescriptor.MapValue(); if it came out of
+// a protoreflect.List it must not (it is the field's own Message()).
+func transferMismatch(cv, dv ssa.Value) string {
+	derives := func(v ssa.Value, pred func(*ssa.Call) bool) bool {
+		seen := map[ssa.Value]bool{}
+		var walk func(x ssa.Value, d int) bool
+		walk = func(x ssa.Value, d int) bool {
+			if x == nil || seen[x] || d > 8 {
+				return false
+			}
+			seen[x] = true
+			switch y := x.(type) {
+			case *ssa.Call:
+				if pred(y) {
+					return true
+				}
+				if y.Call.IsInvoke() {
+					if walk(y.Call.Value, d+1) {
+						return true
+					}
+				}
+				for _, a := range y.Call.Args {
+					if walk(a, d+1) {
+						return true
+					}
+				}
+			case *ssa.Extract:
+				return walk(y.Tuple, d+1)
+			case *ssa.Phi:
+				// the cursors of the previous step: what they were derived from does not describe this step
+				return false
+			case *ssa.MakeInterface:
+				return walk(y.X, d+1)
+			case *ssa.ChangeInterface:
+				return walk(y.X, d+1)
+			case *ssa.TypeAssert:
+				return walk(y.X, d+1)
+			case *ssa.UnOp:
+				if _, isField := y.X.(*ssa.FieldAddr); isField {
+					return false // a cursor kept in a struct field: the previous step's value
+				}
+				return walk(y.X, d+1)
+			}
+			return false
+		}
+		return walk(v, 0)
+	}
+	method := func(name, recvType string) func(*ssa.Call) bool {
+		return func(call *ssa.Call) bool {
+			if call.Call.IsInvoke() {
+				return call.Call.Method.Name() == name && (recvType == "" || namedIs(call.Call.Value.Type(), protoreflectPkg, recvType) || methodFromIface(call.Call.Method, protoreflectPkg, recvType))
+			}
+			cal := call.Call.StaticCallee()
+			return cal != nil && cal.Name() == name && cal.Signature.Recv() != nil && (recvType == "" || namedIs(cal.Signature.Recv().Type(), protoreflectPkg, recvType))
+		}
+	}
+	viaMap := derives(cv, method("Map", "Value"))
+	viaList := derives(cv, method("List", "Value"))
+	descMapValue := derives(dv, method("MapValue", "FieldDescriptor"))
+	switch {
+	case viaMap && !descMapValue:
+		return "after a map index the descriptor cursor is not the map's value descriptor (FieldDescriptor.MapValue()): the next field access is resolved against the synthetic map-entry message, so present fields of the value are reported missing"
+	case viaList && !viaMap && descMapValue:
+		return "after a list index the descriptor cursor is taken from MapValue(), which a list field does not have"
+	}
+	return ""
 }
